@@ -305,6 +305,25 @@ theorem fill_idempotent_optimal_safe (env : Env) (hsp : env.cw SP = 1) (mo : Min
   obtain ⟨h1, h2⟩ := fill_idempotent_of_stable env mo o t ls hw hne hno hstable
   exact ⟨_, h2, h1⟩
 
+/-- **fill is idempotent, optimal-fit, ASCII separator — no assumption about `smawk`**: with the
+    model's own `smawk` (proved to return column minima of textwrap's cost matrix) the contract
+    hypotheses of `fill_idempotent_optimal_safe` are theorems -/
+-- @audit TW.C14.fill_idempotent_optimal_own_ascii
+theorem fill_idempotent_optimal_own_ascii (env : Env) (hsp : env.cw SP = 1)
+    (o : Opts) (hb : Builtin o.splitter) (hsep : o.sep = .ascii) (p : Penalties) (halg : o.alg = .optimalFit p)
+    (hP : 0 < p.nline) (hii : o.initialIndent = []) (hsi : o.subsequentIndent = [])
+    (t : Text) (ls : List Text) (hw : wrap env (ownMinima (α := Int) p) o t = some ls)
+    (hsafe : ∀ l ∈ ls, SeqSafe o.splitter l) (hno : ∀ l ∈ ls, LF ∉ l)
+    (hfit : ∀ l ∈ ls, displayWidth env.cw l ≤ o.width)
+    (hts : ∀ l ∈ ls, l.getLast? ≠ some SP) :
+    ∃ f, fill env (ownMinima (α := Int) p) o t = some f ∧ fill env (ownMinima (α := Int) p) o f = some f := by
+  refine fill_idempotent_optimal_safe env hsp _ (fun frs lws => ownMinima_rowsShape p frs lws) o hb p halg hP
+    hii hsi t ls hw hsafe hno hfit hts ?_ (fun h => by rw [hsep] at h; cases h)
+  intro l _
+  obtain ⟨frs, hfrs⟩ := TW.C05.pipeline_total env o hb l (o.width - displayWidth env.cw o.subsequentIndent)
+    (fun h => by rw [hsep] at h; cases h)
+  exact ⟨frs, hfrs, fun n => TW.C05.moConforms_own p frs (pipeline_noPen env o hb l _ frs hfrs) _ (by simp)⟩
+
 /-! ### lines that overflow (ASCII separator, built-in splitters) -/
 
 theorem points_part (isAlnum : Char → Bool) (sp : Splitter) (hb : Builtin sp) (pre u post : Text)
